@@ -22,6 +22,7 @@ import RedoModel.CyclesWire
 import RedoModel.RunLoopWire
 import RedoModel.TokLoopWire
 import RedoModel.Base
+import RedoModel.Pretty
 open RedoModel RedoModel.Wire
 
 def decList (s : String) : Option (List (List Char)) :=
@@ -116,6 +117,28 @@ def respond (line : String) : String :=
     | some x => match LogRec.parseDoneText x with
       | some (rv, n) => "some " ++ enc rv ++ " " ++ enc n
       | none => "none"
+    | none => "bad-op"
+  | ["pretty-line", d, dl, dp, v, x, lg, depth, color, l] =>
+    match d.toInt?, v.toInt?, x.toInt?, depth.toNat?, dec l with
+    | some d, some v, some x, some depth, some l =>
+      if l.contains '\n' || depth > 4096 then "bad-op" else
+      let cfg : Pretty.Cfg := ⟨d, dl == "1", dp == "1", v, x, lg == "1"⟩
+      enc (Pretty.writeLine cfg (if color == "1" then Pretty.ansi else Pretty.noEsc) depth l)
+    | _, _, _, _, _ => "bad-op"
+  | ["catlog-pretty", v, x, u, r, ts, f] =>
+    match v.toInt?, x.toInt?, decList ts, decForest f with
+    | some v, some x, some ts, some F =>
+      match LogRec.redoLog F (u == "1") (r == "1") (F.length + 2) ts ⟨[], []⟩ with
+      | .ok st =>
+        match Pretty.replayText ⟨0, false, false, v, x, true⟩ Pretty.noEsc st.out.reverse [] with
+        | some t => "ok " ++ enc t
+        | none => "err:depth"
+      | .error e => "err:" ++ (match e with
+          | .outOfFuel => "fuel" | .unknownTarget => "unknown" | .badDone => "baddone" | .emptyText => "empty")
+    | _, _, _, _ => "bad-op"
+  | ["raw-line", l] =>
+    match dec l with
+    | some l => if l.contains '\n' then "bad-op" else enc (Pretty.rawLine l)
     | none => "bad-op"
   | ["valid-line", x] =>
     match dec x with
